@@ -15,9 +15,11 @@ import (
 
 	"mosn.io/api"
 	v2 "mosn.io/mosn/pkg/config/v2"
+	mlog "mosn.io/mosn/pkg/log"
 	"mosn.io/mosn/pkg/protocol"
 	"mosn.io/mosn/pkg/router"
 	"mosn.io/mosn/pkg/types"
+	plog "mosn.io/pkg/log"
 	"mosn.io/pkg/variable"
 	"verif/harness/hx"
 )
@@ -623,10 +625,17 @@ func enumerate(c *hx.Ctx, k int) {
 }
 
 func Run(c *hx.Ctx) {
+	// the router logs every failed match at ERROR level: keep the run quiet
+	mlog.DefaultLogger.SetLogLevel(plog.FATAL)
+	mlog.Proxy.SetLogLevel(plog.FATAL)
+	mlog.StartLogger.SetLogLevel(plog.FATAL)
+	// hx.Rng is counter based (state = (seed+i)*golden): the streams of seeds s and s+1 are the same stream shifted by
+	// one draw. Everything random here therefore hangs off one fork, whose state is a mixed 64-bit value.
+	top := c.Rng.Fork()
 	enumerate(c, c.N(2, 3))
 	nCfg := c.N(450, 6000)
 	for i := 0; i < nCfg; i++ {
-		r := c.Rng.Fork()
+		r := top.Fork()
 		vhs := genConfig(c, r)
 		b := buildReal(vhs)
 		n := 8
@@ -639,7 +648,7 @@ func Run(c *hx.Ctx) {
 	}
 	// many long overlapping suffix chains on one port: sort.Sort leaves insertion sort (n > 12) and is unstable
 	for i := 0; i < c.N(30, 300); i++ {
-		r := c.Rng.Fork()
+		r := top.Fork()
 		var vhs []vhost
 		seen := map[string]bool{}
 		n := 13 + r.Intn(12)
